@@ -121,7 +121,7 @@ def arm_coroutine(crate, c):
     if out.get('svc_struct'):
         nm = out['svc_struct']
         for b2 in crate.bodies:
-            if b2.kind == 'coroutine' and nm.split('::')[-1] + '<T> as tonic::server::' in b2.path and b2.path.endswith('::call::{closure#0}'):
+            if b2.kind == 'coroutine' and ('::' + nm.split('::')[-1] + '<T> as tonic::server::') in b2.path and b2.path.endswith('::call::{closure#0}') and b2.path.startswith('<<' + nm.rsplit('::', 1)[0].lstrip('<')[:40]):
                 mt = re.search(r'as tonic::server::(\w+)Service<', b2.path)
                 out['svc_trait'] = mt.group(1) if mt else None
                 hc = [t for bb, t in b2.calls() if t.get('trait') and t['trait'].split('::')[-1] != 'Deref' and '_server::' in (t.get('fn') or '')]
